@@ -298,6 +298,13 @@ func Drive(c *Check, tier string, seed int64, nworkers int, only string) int {
 	// collect, order (shortest input first), confirm in fresh processes, classify
 	var all []Violation
 	all = append(all, crashViol...)
+	var auxCov map[string]any
+	if c.Aux != nil && only == "" {
+		var av []Violation
+		av, auxCov = c.Aux(tier)
+		all = append(all, av...)
+		crashViol = append(crashViol, av...) // counted like crash violations (not part of any phase)
+	}
 	for _, mp := range m.Phases {
 		all = append(all, mp.Violations...)
 	}
@@ -324,7 +331,7 @@ func Drive(c *Check, tier string, seed int64, nworkers int, only string) int {
 		if len(newViol) >= 12 {
 			continue // enough replay artefacts; total count is still reported
 		}
-		if v.Kind != "fatal" && v.Kind != "hang" && !confirmViolation(self, c, tier, v) {
+		if v.Kind != "fatal" && v.Kind != "hang" && v.Kind != "race-detector" && !confirmViolation(self, c, tier, v) {
 			unconfirmed++
 			fmt.Fprintf(os.Stderr, "ENGINE-ERROR: violation did not reproduce identically in fresh processes: %s %s %s\n", v.Phase, v.InputStr, v.Detail)
 			continue
@@ -344,7 +351,7 @@ func Drive(c *Check, tier string, seed int64, nworkers int, only string) int {
 		newCount = 0
 	}
 
-	writeEvidence(c, tier, seed, m, time.Since(t0).Seconds(), int(newCount), len(known), budgetS, nworkers)
+	writeEvidence(c, tier, seed, m, time.Since(t0).Seconds(), int(newCount), len(known), budgetS, nworkers, auxCov)
 
 	rc := 0
 	for _, v := range newViol {
@@ -513,7 +520,7 @@ func sanitize(s string) string {
 	return b.String()
 }
 
-func writeEvidence(c *Check, tier string, seed int64, m *Merged, wall float64, nviol, nknown, budgetS, nworkers int) {
+func writeEvidence(c *Check, tier string, seed int64, m *Merged, wall float64, nviol, nknown, budgetS, nworkers int, auxCov map[string]any) {
 	var evals, states, trans, traces, nontriv int64
 	var samples []any
 	exhaustive := true
@@ -552,6 +559,9 @@ func writeEvidence(c *Check, tier string, seed int64, m *Merged, wall float64, n
 		"budget_s":                      budgetS,
 		"worker_processes":              nworkers,
 		"known_findings_matched":        nknown,
+	}
+	for k, v := range auxCov {
+		cov[k] = v
 	}
 	if c.Post != nil {
 		c.Post(m, cov)
